@@ -842,7 +842,9 @@ class ExpandFactory(StrategyFactory[WC]):
     """mode 0: yields strategies; 1: yields ready rules; 2: additionally the Expand rule
     of the class whose prefix is one letter shorter (a rule whose parent is another class);
     3: yields a lazily built rule whose children are computed on demand;
-    4: first the rule about the shorter-prefix class, then the strategy for the class itself."""
+    4: first the rule about the shorter-prefix class, then the strategy for the class itself;
+    5: own strategy plus a two-step rule about the shorter-prefix class; 6: only the rule of the
+    class it is a child of (own expansion for the empty prefix only)."""
 
     def __init__(self, mode=0, drop=False, plus=False):
         self.mode, self.drop, self.plus = int(mode), bool(drop), bool(plus)
@@ -871,6 +873,19 @@ class ExpandFactory(StrategyFactory[WC]):
                 other = c.with_(prefix=c.prefix[:-1], proper=False)
                 which = (c.alphabet.index(c.prefix[-1]) + 1) % len(c.alphabet)
                 yield ExpandTwice(which=which, drop=self.drop)(other)
+            return
+        if self.mode == 6:
+            # classes are expanded "from above" only: a class with a non-empty prefix never gets
+            # its own expansion, only the expansion rule of the class it is a child of (a rule
+            # whose parent is another class) - a specification has to read such rules backwards
+            if c.just_prefix:
+                return
+            if c.proper and self.plus:
+                yield strat(c.with_(proper=False))
+            elif c.prefix and not c.proper:
+                yield strat(c.with_(prefix=c.prefix[:-1], proper=self.plus))
+            else:
+                yield strat
             return
         if self.mode == 4 and c.prefix and not c.just_prefix:
             # the rule about the other class comes first, the class's own strategy after it
@@ -1045,8 +1060,12 @@ class PrefixVerified(VerificationStrategy[WC, W]):
     """Verifies every non-atom, non-empty class whose prefix has at least `minlen`
     letters; enumerates by brute force and offers a pack (atoms only) to expand it."""
 
-    def __init__(self, minlen=1, ignore_parent=False, nest=0):
+    def __init__(self, minlen=1, ignore_parent=False, nest=0, nopack=0):
         self.minlen = int(minlen)
+        # nopack = i > 0: classes whose prefix ends with the i-th letter of their alphabet are
+        # verified without a pack (pack() raises the documented InvalidOperationError): one
+        # strategy object, some of its classes expandable and some not
+        self.nopack = int(nopack)
         # nest > 0: the pack offered for a verified class verifies in turn (prefixes one
         # letter longer, nest - 1 further levels), so expanding a verified class brings
         # new verified classes into the specification
@@ -1092,6 +1111,8 @@ class PrefixVerified(VerificationStrategy[WC, W]):
         return f"prefix of length >= {self.minlen} (brute force)"
 
     def pack(self, c):
+        if self.nopack and c.prefix and c.prefix[-1] == c.alphabet[(self.nopack - 1) % len(c.alphabet)]:
+            raise InvalidOperationError("no pack for this class")
         if self.nest > 0:
             return make_pack({"ver": f"prefix{self.minlen + 1}", "nest": self.nest - 1})
         return make_pack({"ver": "atom"})
@@ -1100,6 +1121,7 @@ class PrefixVerified(VerificationStrategy[WC, W]):
         d = super().to_jsonable()
         d["minlen"] = self.minlen
         d["nest"] = self.nest
+        d["nopack"] = self.nopack
         return d
 
     @classmethod
@@ -1107,7 +1129,8 @@ class PrefixVerified(VerificationStrategy[WC, W]):
         return cls(**d)
 
     def __repr__(self):
-        return f"PrefixVerified(minlen={self.minlen}{', nest=%d' % self.nest if self.nest else ''})"
+        return (f"PrefixVerified(minlen={self.minlen}{', nest=%d' % self.nest if self.nest else ''}"
+                f"{', nopack=%d' % self.nopack if self.nopack else ''})")
 
 
 class PackVerified(VerificationStrategy[WC, W]):
@@ -1211,7 +1234,8 @@ def make_pack(opts=None):
     elif str(o["ver"]).startswith("searched"):
         ver = [StatAtom(), PackVerified(int(o["ver"][8:]))]
     else:
-        ver = [StatAtom(), PrefixVerified(int(o["ver"][6:]), nest=int(o.get("nest", 0)))]
+        ver = [StatAtom(), PrefixVerified(int(o["ver"][6:]), nest=int(o.get("nest", 0)),
+                                          nopack=int(o.get("nopack", 0)))]
     return StrategyPack(
         initial_strats=initial,
         inferral_strats=inferral,
